@@ -234,6 +234,18 @@ func (x *Exec) callByContract(st *State, fn *ssa.Function, con *Contract, args [
 		}
 		x.oblige(st, "call", fmt.Sprintf("call.%s.pre.%d@%s", short, k, x.posStr(pos)), pos, g)
 	}
+	// recursion (inductive lemmas): the callee's measure must be smaller and non-negative
+	if fn == x.unitFn && x.ghost == 0 {
+		if con.Decr == nil || x.decrEntry == nil {
+			return nil, fmt.Errorf("recursive call to %s needs a decreases clause", con.Short)
+		}
+		v, err := x.ghostCall(st, con.Decr, nil, args)
+		if err != nil {
+			return nil, err
+		}
+		x.oblige(st, "call", fmt.Sprintf("call.%s.decreases@%s", short, x.posStr(pos)), pos,
+			tb.And(tb.Cmp("bvsle", tb.BV(64, 0), v[0].C[0]), tb.Cmp("bvslt", v[0].C[0], x.decrEntry)))
+	}
 	// postcondition closures capture the pre-state
 	var clos []*Val
 	for _, ef := range con.Ens {
